@@ -161,6 +161,9 @@ def gen(rng, family, n, box_kinds=None, start=None, cond=None, box_spread=None):
         c = np.zeros(n)
     else:
         raise ValueError(family)
+    if family == "expwall":
+        # the wall exp(-k x) overflows for x << 0: this family is only posed on boxes with a finite lower bound
+        box_kinds = [k for k in (box_kinds or ["lo", "box", "box", "fix"]) if k in ("lo", "box", "fix")] or ["lo", "box"]
     lb, ub, ks = make_box(rng, n, c, kinds=box_kinds, spread=box_spread or 2.0)
     mode = start or ["interior", "face", "vertex"][rng.integers(3)]
     x0 = make_start(rng, lb, ub, mode)
